@@ -66,7 +66,7 @@ def r1_conversion(ctx, chk, rule="C17.1"):
             return
     if r[0] == "fstr" or (r[0] == "binop" and r[1] == "Mod"):
         parts = r[1] if r[0] == "fstr" else ()
-        if r[0] == "fstr" and len(parts) == 1 and parts[0][0] == "fmt" and parts[0][1] in prod and parts[0][3] in ("'.0f'", ".0f"):
+        if r[0] == "fstr" and len(parts) == 1 and parts[0][0] == "fmt" and parts[0][1] in prod and parts[0][3] in ("'.0f'", ".0f") and parts[0][2] == -1:
             chk.ok(rule, where, "prob_to_str = f'{prob*100:.0f}': rounding conversion")
             return
     if r[0] == "binop" and r[1] == "Mod" and r[2] == C("%.0f") and r[3] in prod:
